@@ -463,7 +463,6 @@ PREDICATES = {
     "gf256_tables": p_tables,
     "slip39_wordlist": p_wordlist,
     "slip39_fingerprint": p_fingerprint,
-    "official_vector_recovers": p_official_vector,
     "interpolate_is_lagrange": p_interp_lagrange,
 }
 
@@ -524,6 +523,9 @@ def p_official_vector(c):
     import buidl.shamir as S
     got = S.ShareSet([S.Share.parse(m) for m in c["shares"]]).recover(b"TREZOR").hex()
     return got == c["secret"], got, c["secret"]
+
+
+PREDICATES["official_vector_recovers"] = p_official_vector
 
 
 # --------------------------------------------------------------------------------- generation
